@@ -84,7 +84,8 @@ def build(desc, on_step=None):
         rng = rng_for('hgen-c', desc.get('hseed', 0))
         for marks in desc['history']:
             m = {int(l): _container(desc.get('container', 'set'), cs, rng) for l, cs in marks.items()}
-            hs.refine(m)
+            if desc.get('mark_truncate'): hs.refine(m, truncate=True)
+            else: hs.refine(m)
             hist.append({int(l): [list(c) for c in cs] for l, cs in marks.items()})
             if on_step: on_step(hs, m)
     else:
@@ -95,7 +96,8 @@ def build(desc, on_step=None):
             m = {int(l): _container(desc.get('container', 'set'), cs, rng) for l, cs in marks.items()}
             _maybe_live(hs, m, rng, desc.get('container', 'set'))
             hist.append({int(l): [list(c) for c in cs] for l, cs in marks.items()})
-            hs.refine(m)
+            if desc.get('mark_truncate'): hs.refine(m, truncate=True)       # T-admissible marking of [Bracco, Giannelli, Vazquez]
+            else: hs.refine(m)
             if on_step: on_step(hs, m)
     return hs, hist
 
